@@ -1568,8 +1568,9 @@ class IrregularParameterGrid(object):
         if not issequence(arr):
             raise TypeError(
                 'The grid property must be a sequence!')
-        if not isinstance(arr, np.ndarray):
-            arr = np.array(arr, dtype=np.float64)
+        # Always store a copy, so later changes of the caller's array do not
+        # alter this grid.
+        arr = np.array(arr, dtype=np.float64)
         if arr.ndim != 1:
             raise ValueError(
                 'The grid property must be a 1D numpy.ndarray!')
